@@ -36,7 +36,11 @@ ALLOWED_INSTANCE_ATTRS = {"__class__", "__yaqlization__"}
 ALLOWED_CLASS_ATTRS = {"__mro__", "__dict__", "__name__", "__qualname__", "__module__", "__class__",
                        "__subclasshook__", "__abstractmethods__", "__yaqlization__", "__bases__", "__flags__"}
 ALLOWED_PROTOCOL = {"__eq__", "__ne__", "__hash__", "__str__", "__repr__", "__bool__", "__format__", "__sizeof__",
-                    "__lt__", "__le__", "__gt__", "__ge__"}
+                    "__lt__", "__le__", "__gt__", "__ge__",
+                    # operator / conversion syntax applied by a payload to an untyped argument (random(a, b), int(x)):
+                    # dispatched by the interpreter, no member is named
+                    "__add__", "__radd__", "__sub__", "__rsub__", "__mul__", "__rmul__", "__mod__", "__rmod__",
+                    "__truediv__", "__neg__", "__pos__", "__int__", "__float__", "__index__"}
 
 LOG = []
 
@@ -61,6 +65,8 @@ class Canary(object, metaclass=CanaryMeta):
     def __init__(self):
         object.__setattr__(self, "secret", SECRET_I)
         object.__setattr__(self, "_hidden", SECRET_I)
+
+    __iter__ = None          # explicitly not iterable (no legacy __getitem__ iteration either)
 
     def get_secret(self):
         return SECRET_M
@@ -393,7 +399,7 @@ class Sweeper(object):
         def node(k):
             return self.exprs[k]() if k.startswith("x_") else var(k)
 
-        li, name, fd = self.regs[case["i"]]
+        li, name, fd = self.lookup(case)
         nodes = [node(k) for k in case["args"]]
         if case["form"] == "method" and nodes:
             body = expressions.BinaryOperator(".", nodes[0], expressions.Function(name, *nodes[1:]), None)
@@ -402,10 +408,19 @@ class Sweeper(object):
             body.uses_receiver = False
         return expressions.Statement(body, self.engine)
 
+    def lookup(self, case):
+        """registry entry of an fd case: by (name, payload) when recorded (replays survive registry changes)"""
+        if "fn" in case:
+            for li, name, fd in self.regs:
+                if name == case["fn"] and "%s.%s" % (fd.payload.__module__, fd.payload.__qualname__) == case["payload"]:
+                    return li, name, fd
+            raise LookupError("function %s / %s is not registered any more" % (case["fn"], case["payload"]))
+        return self.regs[case["i"]]
+
     def describe(self, case):
         if case["k"] == "text":
             return case["expr"]
-        li, name, fd = self.regs[case["i"]]
+        li, name, fd = self.lookup(case)
         vals = make_values()
 
         def show(k):
@@ -416,13 +431,13 @@ class Sweeper(object):
         return "%s %s(%s) [payload %s.%s, layer %d]" % (case["form"], name, ", ".join(show(k) for k in case["args"]),
                                                          fd.payload.__module__, fd.payload.__qualname__, li)
 
-    def run_case(self, case, timeout=3.0):
+    def run_case(self, case, timeout=2.0):
         """-> (outcome class, violations)"""
         vals = make_values()
         ctx = self.ctx.create_child_context()
         for k, v in vals.items():
             ctx[k] = v
-        ctx[""] = vals["c"]
+        ctx["$"] = vals["c"]
         try:
             st = self.build(case)
         except Exception as e:
@@ -433,7 +448,10 @@ class Sweeper(object):
         try:
             try:
                 res = st.evaluate(context=ctx)
+                log_snapshot = list(LOG)
                 text = render(res)
+                del LOG[:]
+                LOG.extend(log_snapshot)
                 outcome = "value"
             except CaseTimeout:
                 raise
@@ -455,8 +473,11 @@ class Sweeper(object):
         return outcome, judge(list(LOG), text)
 
 
-def _worker(sw, cases, lo, hi, conn):
+def _worker(sw, cases, lo, hi, conn, skip):
     for i in range(lo, hi):
+        if cases[i].get("i") in skip:
+            conn.send(("r", i, "skipped-after-hang", []))
+            continue
         conn.send(("s", i))
         try:
             outcome, bad = sw.run_case(cases[i])
@@ -467,7 +488,7 @@ def _worker(sw, cases, lo, hi, conn):
     conn.close()
 
 
-def run_parallel(sw, cases, nproc=12, stall=12.0):
+def run_parallel(sw, cases, nproc=14, stall=6.0):
     """returns {index: (outcome, violations)}; a case that stalls its worker is recorded as 'hung'"""
     mp = multiprocessing.get_context("fork")
     results = {}
@@ -476,10 +497,11 @@ def run_parallel(sw, cases, nproc=12, stall=12.0):
     size = max(1, (n + nproc * 4 - 1) // (nproc * 4))
     pending = [(lo, min(n, lo + size)) for lo in range(0, n, size)]
     active = []
+    skip = set()
 
     def start(lo, hi):
         a, b = mp.Pipe(duplex=False)
-        p = mp.Process(target=_worker, args=(sw, cases, lo, hi, b), daemon=True)
+        p = mp.Process(target=_worker, args=(sw, cases, lo, hi, b, set(skip)), daemon=True)
         p.start()
         b.close()
         active.append({"p": p, "c": a, "lo": lo, "hi": hi, "cur": lo, "t": time.time()})
@@ -512,6 +534,8 @@ def run_parallel(sw, cases, nproc=12, stall=12.0):
                 w["p"].kill()
                 w["p"].join(timeout=2)
                 results[w["cur"]] = ("hung", [])
+                if cases[w["cur"]].get("i") is not None:
+                    skip.add(cases[w["cur"]]["i"])
                 active.remove(w)
                 if w["cur"] + 1 < w["hi"]:
                     pending.insert(0, (w["cur"] + 1, w["hi"]))
@@ -552,6 +576,9 @@ def sweep(run, deep, corpus):
                 if c["k"] == "fd" else ("an expression reaches into a host object that was not yaqlized: %s" % bad[0])
             if c["k"] == "fd":
                 what += " [%s]" % sw.regs[c["i"]][1]
+            if c["k"] == "fd":
+                c = dict(c, fn=sw.regs[c["i"]][1], payload="%s.%s" % (sw.regs[c["i"]][2].payload.__module__,
+                                                                      sw.regs[c["i"]][2].payload.__qualname__))
             run.fail("violation", what, {"sweep": c, "expression": sw.describe(c), "observed": {"outcome": outcome, "accesses": bad},
                                          "required": "only the protocol slots listed in the evidence notes may be used on a non-yaqlized object; no secret in any result or message",
                                          "theorems": ["C07_only_gated_payloads_touch_hosts", "C07_not_yaqlized_denied"]})
@@ -563,4 +590,9 @@ def sweep(run, deep, corpus):
 def replay(run, case):
     sw = Sweeper()
     outcome, bad = sw.run_case(case, timeout=10.0)
+    log("replay: %s -> %s %s" % (sw.describe(case) if not outcome.startswith("unparsable") else case, outcome, bad))
     return not bad
+
+
+def log(*a):
+    print(*a, flush=True)
